@@ -8,6 +8,7 @@ package sctp
 // engine and the native build execute.
 
 import (
+	"reflect"
 	"runtime"
 	"sync"
 	"sync/atomic"
@@ -111,6 +112,11 @@ func vLockRelease(rank int) {
 	if !vOnMain() {
 		return
 	}
+	if vRaceMode {
+		// race-detector confirmation of a lockset report: leave every unlocked window of the
+		// harness goroutine open long enough for the touchers to get in (see vGuardedBy)
+		time.Sleep(300 * time.Microsecond)
+	}
 	for i := len(vHeldRanks) - 1; i >= 0; i-- {
 		if vHeldRanks[i] == rank {
 			vHeldRanks = append(vHeldRanks[:i], vHeldRanks[i+1:]...)
@@ -157,4 +163,68 @@ func (l *vLkWrite) TryLock() bool {
 		vLockTaken(0)
 	}
 	return ok
+}
+
+// ---- lockset discipline (C20)
+//
+// vGuardedBy(field, lock, name) declares that *field belongs to lock: from here on the
+// engine reports any read of it by code of the package with the lock not held, and any
+// write with the lock not held exclusively (harness code itself is exempt). The native
+// confirmation of such a report runs under the race detector: a goroutine that keeps
+// touching the field under the lock runs beside the harness, so the unguarded access of the
+// counterexample path is a data race the detector sees.
+var (
+	vRaceMode bool
+	vRaceStop chan struct{}
+)
+
+func vGuardedBy(field any, lock any, name string) {
+	if !vRaceMode {
+		return
+	}
+	l := lock.(sync.Locker)
+	v := reflect.ValueOf(field).Elem()
+	stop := vRaceStop
+	started := make(chan struct{})
+	var once sync.Once
+	defer func() {
+		<-started // the toucher is running; what it does from now on is unordered with the harness
+	}()
+	go func() {
+		for {
+			select {
+			case <-stop:
+				return
+			default:
+			}
+			l.Lock()
+			v.Set(v) // read and write the field, under its lock
+			l.Unlock()
+			once.Do(func() { close(started) })
+			time.Sleep(20 * time.Microsecond)
+		}
+	}()
+}
+
+// ---- goroutines started by the code under check that a harness runs at a chosen point
+//
+// The read-deadline goroutine of Stream.SetReadDeadline is queued by vSpawnCh in the overlay
+// copy of stream.go (see patchedSources) instead of being started; vRunSpawned runs the
+// queued bodies to completion, one after the other, where the scenario says the deadline
+// passes. Ordinary Go code in both worlds.
+var vSpawned []func()
+
+func vSpawnCh(f func(chan struct{}), ch chan struct{}) {
+	vSpawned = append(vSpawned, func() { f(ch) })
+}
+
+func vRunSpawned() int {
+	n := 0
+	for len(vSpawned) > 0 {
+		f := vSpawned[0]
+		vSpawned = vSpawned[1:]
+		f()
+		n++
+	}
+	return n
 }
